@@ -13,7 +13,7 @@ inductive TransformData where
   | none
   | quantization (bits : Int) (minBits : List Nat) (rangeBits : Nat)   -- float32 bit patterns
   | octahedron (bits : Int)
-deriving Repr, BEq, DecidableEq
+deriving Repr, BEq, DecidableEq, Inhabited
 
 structure Attribute where
   attType : Nat
@@ -27,7 +27,7 @@ structure Attribute where
   /-- raw value buffer, little endian, `numValues * stride` bytes -/
   values : Bytes
   transform : TransformData := .none
-deriving Repr, BEq, DecidableEq
+deriving Repr, BEq, DecidableEq, Inhabited
 
 structure Geometry where
   isMesh : Bool
